@@ -248,14 +248,23 @@ def check_chained_replacement(ctx: Ctx):
             ctx.ok("R04.6", f, f.node, f"{f.qual}:chained-replacement", "no in-place sequential relabelling against the array being written", None, nontrivial=False)
 
 
+def _run_rule(ctx, name, fn):
+    """a sub-rule that cannot be evaluated is recorded as undecided; the remaining rules still run"""
+    try:
+        return fn(ctx)
+    except (Undecided, AnchorMissing) as e:
+        ctx.undecided(name, None, None, f"{name}:analysis", f"{type(e).__name__}: {e}")
+        return 0
+
+
 def check(ctx: Ctx):
     # instance counts and label tuples come from the label enumeration helpers (R09.6)
     from . import c03 as _c03e
     from .labelenum import check_label_enumeration as _cle
 
     _c03e._guarded(ctx, "R09.6", _cle)
-    check_chained_replacement(ctx)
-    check_relabel(ctx)
+    _run_rule(ctx, "check_chained_replacement", check_chained_replacement)
+    _run_rule(ctx, "check_relabel", check_relabel)
     # dtype chosen after approximation (anchored in C04 as well): selector capacity + plumbing
     from . import c03, c05
 
